@@ -129,6 +129,20 @@ def run_case(ctx, case):
         elif which == "bytes-int":
             d = C.ByteSwapped(C.BytesInteger(n))
             want = None
+        elif which == "bytes-int-signed":
+            # signed integers (also through the public 24-bit names and with the inner integer itself swapped): reversing the bytes
+            # of the two's-complement encoding
+            ctx.count("swap_signed_integers")
+            forms = [(C.ByteSwapped(C.BytesInteger(n, signed=True)), "little"), (C.ByteSwapped(C.BytesInteger(n, signed=True, swapped=True)), "big")]
+            if n == 3:
+                forms += [(C.ByteSwapped(C.Int24sb), "little"), (C.ByteSwapped(C.Int24sl), "big"), (C.ByteSwapped(C.Int24ub), "little-unsigned")]
+            for d, order in forms:
+                v = int.from_bytes(data, order.split("-")[0], signed=not order.endswith("unsigned"))
+                if outcome(lambda: d.parse(data)) != ("ok", v):
+                    bad("byteswapped-int-parse:signed", "ByteSwapped(<signed %d-byte integer>).parse(%s) -> %r, expected %d" % (n, data.hex(), outcome(lambda: d.parse(data)), v))
+                if outcome(lambda: d.build(v)) != ("ok", data):
+                    bad("byteswapped-int-build:signed", "ByteSwapped(<signed %d-byte integer>).build(%d) -> %r, expected %s" % (n, v, outcome(lambda: d.build(v)), data.hex()))
+            return
         elif which == "bits-sized":
             d = C.BitsSwapped(C.Bytes(n))
             want = ref_bitrev(data)
@@ -265,7 +279,7 @@ def run(ctx):
             cases.append(("rot", {"amount": amount, "group": group, "via": "const" if amount % 2 == 0 else "ctx"}, "g%d" % group))
     # --- swaps
     for n in range(1, 17):
-        for which in ("bytes-sized", "bytes-int", "bits-sized", "bits-unsized", "bits-struct", "bits-probe", "bits-positional"):
+        for which in ("bytes-sized", "bytes-int", "bits-sized", "bits-unsized", "bits-struct", "bits-probe", "bits-positional", "bytes-int-signed"):
             cases.append(("swap", {"which": which, "n": n}, which))
     # --- codecs
     for enc in ("zlib", "gzip", "bzip2", "lzma"):
